@@ -1019,7 +1019,12 @@ impl Reader {
             let mut missing_frags = this.missing_frags_for(writer_guid, sn);
             let first_missing = missing_frags.next();
             if let Some(first) = first_missing {
-              let missing_frags_set = iter::once(first).chain(missing_frags).collect(); // "undo" the .next() above
+              // "undo" the .next() above, and stop where the NackFrag could not say more
+              // anyway: a FragmentNumberSet reaches 256 numbers from its base
+              let window_end = u32::from(first).saturating_add(256);
+              let missing_frags_set = iter::once(first)
+                .chain(missing_frags.take_while(|f| u32::from(*f) < window_end))
+                .collect();
               let nf = NackFrag {
                 reader_id,
                 writer_id: writer_proxy.remote_writer_guid.entity_id,
